@@ -68,13 +68,31 @@ pub fn probe(src: &str, w: &Value, workdir: &str) -> Value {
         if cs != "absent" { y.push_str(&format!("client_stats: {}\n", cs)); }
         if w["persistence_directory"] == "dir" { y.push_str(&format!("persistence_directory: {}\n", pdir)); }
         if w["unknown_key"].as_bool().unwrap_or(false) { y.push_str("frobnicate: 1\n"); }
-        arg = format!("{}/probe.yaml", workdir);
-        std::fs::write(&arg, y).unwrap();
+        // a long file: a block of comment lines (more than 4 KiB, then more than 64 KiB every fourth time) behind the first
+        // setting - what follows it counts like everything else
+        if w["longfile"].as_bool().unwrap_or(false) {
+            static LONG: std::sync::atomic::AtomicUsize = std::sync::atomic::AtomicUsize::new(0);
+            let big = LONG.fetch_add(1, std::sync::atomic::Ordering::Relaxed) % 4 == 3;
+            let block: String = (0..(if big { 1100 } else { 80 })).map(|i| format!("# {:04} ---------------------------------------------------------\n", i)).collect();
+            let cut = y.find('\n').map(|i| i + 1).unwrap_or(0);
+            y.insert_str(cut, &block);
+        }
+        // a file whose NAME is the word that selects the environment source, up to letter case ("Env", "env"): still a file
+        let envname = w["envname"].as_bool().unwrap_or(false);
+        if envname {
+            static NAMES: std::sync::atomic::AtomicUsize = std::sync::atomic::AtomicUsize::new(0);
+            let name = ["Env", "env", "eNV"][NAMES.fetch_add(1, std::sync::atomic::Ordering::Relaxed) % 3];
+            std::fs::write(format!("{}/{}", workdir, name), &y).unwrap();
+            arg = name.to_string();
+        } else {
+            arg = format!("{}/probe.yaml", workdir);
+            std::fs::write(&arg, y).unwrap();
+        }
         // the file is the source: whatever ROUGHENOUGH_* variables the environment happens to hold (another instance's
         // settings, a leftover export) must not change what the server runs with. Every other file probe runs in such an
         // environment, with valid values that all differ from the file's.
         static FILE_PROBES: std::sync::atomic::AtomicUsize = std::sync::atomic::AtomicUsize::new(0);
-        if FILE_PROBES.fetch_add(1, std::sync::atomic::Ordering::Relaxed) % 2 == 1 {
+        if FILE_PROBES.fetch_add(1, std::sync::atomic::Ordering::Relaxed) % 2 == 1 || envname {
             std::env::set_var("ROUGHENOUGH_SEED", "f".repeat(64));
             std::env::set_var("ROUGHENOUGH_PORT", "4343");
             std::env::set_var("ROUGHENOUGH_INTERFACE", "127.0.0.9");
@@ -85,6 +103,10 @@ pub fn probe(src: &str, w: &Value, workdir: &str) -> Value {
             std::env::set_var("ROUGHENOUGH_HEALTH_CHECK_PORT", "4344");
         }
     }
+    // (a relative file name is resolved against the working directory)
+    let back = std::env::current_dir().ok();
+    let relative = src != "env" && !arg.starts_with('/');
+    if relative { let _ = std::env::set_current_dir(workdir); }
     let r = guarded(|| {
         let cfg = match make_config(&arg) { Ok(c) => c, Err(e) => return Err(format!("{:?}", e)) };
         if !is_valid_config(cfg.as_ref()) { return Err("is_valid_config = false".to_string()); }
@@ -102,6 +124,7 @@ pub fn probe(src: &str, w: &Value, workdir: &str) -> Value {
             "interface_ok": cfg.interface() == "127.0.0.1",
         }))
     });
+    if relative { if let Some(b) = back { let _ = std::env::set_current_dir(b); } }
     for k in ALL_ENV { std::env::remove_var(k); }
     let refused = |why: String| json!({"running": false, "why": why, "port": 0, "batch_size": 0, "fault_percentage": 0, "num_workers": 0,
         "status_interval": 0, "health_check_port": ABSENT, "client_stats": false, "persistence": false, "seed_ok": false, "interface_ok": false});
@@ -157,7 +180,7 @@ pub fn record(seed: u64, tier: &str, out_path: &str, workdir: &str) {
     for _ in 0..n {
         let src = if rng.chance(1, 2) { "file" } else { "env" };
         let mut w = json!({"port": 8686, "batch_size": ABSENT, "fault_percentage": ABSENT, "num_workers": ABSENT, "status_interval": ABSENT,
-            "health_check_port": ABSENT, "seed": "ok", "interface": "ok", "client_stats": "absent", "persistence_directory": "absent", "unknown_key": false, "multidoc": false});
+            "health_check_port": ABSENT, "seed": "ok", "interface": "ok", "client_stats": "absent", "persistence_directory": "absent", "unknown_key": false, "multidoc": false, "longfile": false, "envname": false});
         // mostly in-range multi-key configurations with one or two boundary values
         for (k, _) in INT_KEYS {
             if rng.chance(1, 2) {
@@ -177,6 +200,8 @@ pub fn record(seed: u64, tier: &str, out_path: &str, workdir: &str) {
         if rng.chance(1, 3) { w["client_stats"] = json!(*rng.pick(&["on", "yes", "off", "ON", "On", "oN", "YES", "Yes", "yEs", "OFF", "no", "enabled", "onn"])); }
         if rng.chance(1, 3) { w["persistence_directory"] = json!("dir"); }
         if src == "file" && rng.chance(1, 15) { w["unknown_key"] = json!(true); }
+        if src == "file" && rng.chance(1, 8) { w["longfile"] = json!(true); }
+        if src == "file" && rng.chance(1, 12) { w["envname"] = json!(true); }
         let o = probe(src, &w, workdir);
         // the class is recomputed by TLC; the harness only passes through what it believes for cross-checking
         let class = classify(&w);
